@@ -276,6 +276,85 @@ func readout(obj interface{}, keys []int) string {
 	return sb.String()
 }
 
+// c10Integrity checks, at quiescence, the minimum a dictionary or set must satisfy whatever
+// history produced it ("never corrupts the structure"): the enumeration of its keys has no
+// duplicates and as many elements as Size() reports; a key is reported present exactly when
+// the enumeration contains it; a bounded instance holds at most its maximum. Independent of
+// the sequential self-model (a structure that corrupts itself sequentially in the same way
+// would otherwise go unnoticed).
+func c10Integrity(obj interface{}, domain []int, max int) (bad string) {
+	defer func() {
+		if r := recover(); r != nil {
+			bad = "panic while reading the structure out: " + strings.SplitN(fmt.Sprint(r), "\n", 2)[0]
+		}
+	}()
+	v := reflect.ValueOf(obj)
+	km := v.MethodByName("Keys")
+	if !km.IsValid() || km.Type().NumIn() != 0 {
+		return ""
+	}
+	var member reflect.Value
+	var mname string
+	for _, n := range []string{"ContainsKey", "Contains", "HasKey"} {
+		if m := v.MethodByName(n); m.IsValid() && m.Type().NumIn() == 1 {
+			member, mname = m, n
+			break
+		}
+	}
+	if !member.IsValid() {
+		return ""
+	}
+	// the enumeration is used through the interface type Keys() declares (the concrete
+	// enumerator types also carry value accessors)
+	r := km.Call(nil)[0]
+	hm := r.MethodByName("HasMoreElements")
+	if !hm.IsValid() {
+		return ""
+	}
+	var next reflect.Value
+	for _, nn := range []string{"NextInt", "NextLong", "NextString", "NextElement"} {
+		if x := r.MethodByName(nn); x.IsValid() {
+			next = x
+			break
+		}
+	}
+	seen := map[string]int{}
+	n := 0
+	for i := 0; i < 100000 && hm.Call(nil)[0].Bool(); i++ {
+		seen[outString(next.Call(nil))]++
+		n++
+	}
+	size, _ := strconv.Atoi(invoke(obj, "Size", 0, 0))
+	if n != size {
+		return fmt.Sprintf("Size() is %d but the key enumeration yields %d elements", size, n)
+	}
+	var ks []string
+	for k := range seen {
+		ks = append(ks, k)
+	}
+	sort.Strings(ks)
+	for _, k := range ks {
+		if seen[k] > 1 {
+			return fmt.Sprintf("key %s is enumerated %d times", k, seen[k])
+		}
+	}
+	if max > 0 && size > max && strings.Contains(reflect.TypeOf(obj).String(), "Linked") { // only the linked (LRU) types evict; the others merely report IsFull
+		return fmt.Sprintf("holds %d entries although its maximum is %d", size, max)
+	}
+	for _, k := range domain {
+		args, ok := mkArgs(mname, member.Type(), k, 0)
+		if !ok {
+			return ""
+		}
+		is := member.Call(args)[0].Bool()
+		_, enumerated := seen[outString(args[:1])]
+		if is != enumerated {
+			return fmt.Sprintf("%s(%s) is %v but the key enumeration %s it", mname, outString(args[:1]), is, map[bool]string{true: "contains", false: "does not contain"}[enumerated])
+		}
+	}
+	return ""
+}
+
 func enumerate(obj interface{}) (out string) {
 	defer func() {
 		if r := recover(); r != nil {
@@ -772,6 +851,13 @@ func c10LinBody(rc *RunCtx) {
 	op.Call = simrt.Stamp()
 	op.Out = readout(obj, keys)
 	op.Return = simrt.Stamp()
+	dom := append([]int(nil), keys...)
+	for i := 0; i < d.Prefill; i++ {
+		dom = append(dom, 1000+i)
+	}
+	if bad := c10Integrity(obj, dom, d.Max); bad != "" {
+		rc.Violate("C10", "corruption", "corrupt:"+d.Type, fmt.Sprintf("%s (variant %d, max %d, prefill %d) after a concurrent mix of point operations: %s", d.Type, d.Variant, d.Max, d.Prefill, bad))
+	}
 	if d.Prefill > 0 {
 		simrt.Probe("rehash_in_window")
 	}
